@@ -47,7 +47,7 @@ M = {
     "M09-wrong-stride-word": ("C02 C07 C15", "xobjects/capi.py", "stride_offset = 8 + (len(cls._dshape_idx) * 8) + (ii * 8)", "stride_offset = 8 + (len(cls._dshape_idx) * 8) + ((nd - 1 - ii if nd == 3 and len(cls._dshape_idx) == 1 else ii) * 8)", "C accessors read the stride words in reverse for 3-D arrays with exactly one dynamic axis"),
     "M10-struct-offset-table-shifted": ("C05", "xobjects/struct.py", "                for field in d_fields[1:]:\n                    field.offset = offset\n                    field.is_reference = True\n                    offset += _to_slot_size(8)\n                # first dynamic field\n                d_fields[0].offset = offset", "                offset += 8 if len(d_fields) > 2 else 0\n                for field in d_fields[1:]:\n                    field.offset = offset\n                    field.is_reference = True\n                    offset += _to_slot_size(8)\n                # first dynamic field\n                d_fields[0].offset = offset", "structs with three or more dynamic fields leave an undocumented empty slot before the offset table (writer and reader agree, round trip unaffected)"),
     "M11-view-dims-in-memory-order": ("C06 C01", "xobjects/array.py", "            shape = []\n            for dd in cls._shape:\n                if dd is None:\n                    shape.append(Int64._from_buffer(self._buffer, coffset))\n                    coffset += 8\n                else:\n                    shape.append(dd)\n            self._shape = shape", "            shape = []\n            for dd in cls._shape:\n                if dd is None:\n                    shape.append(Int64._from_buffer(self._buffer, coffset))\n                    coffset += 8\n                else:\n                    shape.append(dd)\n            if len(shape) == 3 and cls._order[0] != 0:\n                shape = [shape[io] for io in cls._order]\n            self._shape = shape", "views of 3-D dynamic arrays whose slowest axis is not axis 0 report their dimensions in memory order"),
-    "M12-array-copy-size-check-on-class": ("C09 C01", "xobjects/array.py", "            if value._size == info.size:\n                buffer.update_from_xbuffer(\n                    offset, value._buffer, value._offset, value._size\n                )", "            if value._size == info.size:\n                buffer.update_from_xbuffer(\n                    offset, value._buffer, value._offset, cls._size or value._size - 8\n                )", "binary copy of dynamic arrays copies 8 bytes too few"),
+    "M12-array-copy-short-by-a-slot": ("C09 C01", "xobjects/array.py", "            buffer.update_from_xbuffer(\n                offset, value._buffer, value._offset, value._size\n            )\n        elif value is None:", "            buffer.update_from_xbuffer(\n                offset, value._buffer, value._offset, cls._size or value._size - 8\n            )\n        elif value is None:", "binary copy of dynamic arrays copies 8 bytes too few"),
     "M13-bound-check-off-by-one": ("C11", "xobjects/array.py", "        if ii < 0 or ii >= ss:", "        if ii < 0 or ii > ss:", "index == dimension is accepted"),
     "M14-depends_on-of-discovered-ignored": ("C14", "xobjects/context.py", "        if hasattr(cls, \"_depends_on\"):\n            cls_deps.extend(cls._depends_on)", "        if hasattr(cls, \"_depends_on\") and cls.__name__ in class_by_name_at_start:\n            cls_deps.extend(cls._depends_on)", "_depends_on of classes discovered on-line is ignored"),
     "M15-one-cast-loses-gpuglmem": ("C15", "xobjects/capi.py", "        rettype = gen_pointer(ret + \"*\", conf)\n        if size == 1:", "        rettype = gen_pointer(ret + \"*\", conf) if size != 2 else ret + \"*\"\n        if size == 1:", "the dereferencing cast of 2-byte scalars loses the global-memory placeholder (CPU text unchanged)"),
